@@ -34,7 +34,7 @@ func init() {
 			"client side: hostile responses (mutated, truncated, reset) read by the real HostClient incl. redirects, Set-Cookie and Location parsing; only panics and hangs are judged there",
 			"a parse-level rejection is recognised as: last response on the connection is 400/413/408, no handler ran for it and Engine.Serve returned a non-nil error",
 		},
-		RequiredProbes: []string{"mut-flip", "mut-insert", "mut-delete", "mut-dup", "mut-token", "truncate", "rst", "rejected", "too-large", "too-large-multipart", "too-large-chunked", "hostile-chunk-size", "fs-route", "multipart", "cookie", "trailer", "recovery-engine", "default-engine", "client-side", "stall-mid-request", "too-large-expect", "invalid-content-length", "trailer-zero-name", "huge-body", "router-mode", "route-request", "forwarded-prefix", "redirected"},
+		RequiredProbes: []string{"mut-flip", "mut-insert", "mut-delete", "mut-dup", "mut-token", "truncate", "rst", "rejected", "too-large", "too-large-multipart", "too-large-chunked", "hostile-chunk-size", "fs-route", "multipart", "cookie", "trailer", "recovery-engine", "default-engine", "client-side", "stall-mid-request", "too-large-expect", "invalid-content-length", "trailer-zero-name", "huge-body", "router-mode", "route-request", "forwarded-prefix", "redirected", "http10-connection-list"},
 	}
 }
 
@@ -78,6 +78,7 @@ var hostileTokens = map[string][]string{
 	"Content-Length":    {"-1", "99999999999999999999", "0x10", "1e3", "+5", " 5", "5 5", ""},
 	"Host":              {"", "a:b:c", "[::1", "a b", "\x00"},
 	"Accept-Encoding":   {"gzip", "gzip, deflate", ",", "gzip;q=0"},
+	"Connection":        {",keep-alive", "close", " , close", "keep-alive, ,", ",", "", "Keep-Alive, ,Upgrade", " ", "close,", ",,"},
 }
 
 var hostileTargets = []string{"a:b", "//", "/..", "http://", "http:/x", ":", "*", "/%", "/%zz", "/%2", "?", "#", "/a?%", "/\x00", "h://u@:p@/", "/a b", "/fs/../../etc/passwd", "/fs/%2e%2e/", "/fs/empty.txt", "/fs//a.txt", "https://[::1/", "/?a=%&=&&b"}
@@ -262,7 +263,8 @@ func RunC03(ep *core.Episode) {
 	tooLargeAt := -1
 	var reqStart []int
 	zeroTrailer := false
-	badCLAt := -1 // request carrying a syntactically invalid Content-Length (and no Transfer-Encoding)
+	connTokAt := -1 // request carrying a hostile Connection list
+	badCLAt := -1   // request carrying a syntactically invalid Content-Length (and no Transfer-Encoding)
 	for i := 0; i < n; i++ {
 		m := &wire.Msg{Proto: "HTTP/1.1", Method: "GET", Target: fmt.Sprintf("/p%d?a=1&b=%%20x&c", i)}
 		m.Headers = []wire.Header{{K: "Host", V: "example.com"}}
@@ -389,8 +391,15 @@ func RunC03(ep *core.Episode) {
 					m.Headers = m.Headers[1:]
 				}
 			} else {
-				names := []string{"Trailer", "Cookie", "Range", "If-Modified-Since", "Content-Type", "Host", "Accept-Encoding", "X-Set-Cookie", "Content-Length"}
+				names := []string{"Trailer", "Cookie", "Range", "If-Modified-Since", "Content-Type", "Host", "Accept-Encoding", "X-Set-Cookie", "Content-Length", "Connection"}
 				k := names[tp.Choose("tokname", len(names))]
+				if k == "Connection" && connTokAt < 0 {
+					connTokAt = i // whether the connection outlives this request is hertz's reading of the list
+				}
+				if k == "Connection" && tp.Choose("http10", 2) == 1 {
+					m.Proto = "HTTP/1.0" // only there does the server look through the Connection list
+					ep.Probe("http10-connection-list")
+				}
 				src := k
 				if k == "X-Set-Cookie" {
 					src = "Cookie"
@@ -608,7 +617,7 @@ func RunC03(ep *core.Episode) {
 		}
 	}
 	// RFC 7230 3.3.3: a Content-Length that is not a number (and no Transfer-Encoding) is an unrecoverable framing error: 400 and close
-	if badCLAt >= 0 && len(mdesc) == 0 && endKind == 0 && tooLargeAt < 0 {
+	if badCLAt >= 0 && len(mdesc) == 0 && endKind == 0 && tooLargeAt < 0 && (connTokAt < 0 || connTokAt >= badCLAt) {
 		ok := true
 		for k := 0; k < badCLAt && k < nresp; k++ {
 			if cl.Resps[k].Status/100 != 2 && cl.Resps[k].Status/100 != 3 {
@@ -703,8 +712,11 @@ func runC03Client(ep *core.Episode) {
 			m.NoFraming = true
 		}
 		if tp.Chance("tok", 1, 3) {
-			names := []string{"Set-Cookie", "Trailer", "Content-Length", "Content-Type", "Location"}
+			names := []string{"Set-Cookie", "Trailer", "Content-Length", "Content-Type", "Location", "Connection"}
 			k := names[tp.Choose("tokn", len(names))]
+			if k == "Connection" && tp.Choose("http10", 2) == 1 {
+				m.Proto = "HTTP/1.0"
+			}
 			src := map[string]string{"Set-Cookie": "Cookie", "Location": "Host"}[k]
 			if src == "" {
 				src = k
